@@ -280,6 +280,8 @@ func checkC21(c *Ctx) {
 	c.Rule("C21.walk", "parser.Parse ranges over every block of the image; inside a block the address starts at block.Begin(), advances by the parsed instruction's Len() and stops at block.End(); parsed instructions are appended in order")
 	c.Rule("C21.same", "wherever parser.Parse (or a helper) decodes, it decodes p.Parse(addr, b) with b = block.Address(addr) of the current block and builds newInstruction(ins, addr, b) from the decoded instruction, the same address and the same bytes, after the decode and ins.Validate() succeeded")
 	c.Rule("C21.fresh", "no instruction appended to the result of parser.Parse derives from an element already in a list of instructions: every one is lifted for its own address")
+	c.Rule("C21.order", "the instructions Parse returns stay in walk (address) order: where package parser sorts, the comparator decides with comparison operators; a comparator that returns a (converted) difference of addresses has the wrong sign for operands 2^63 or more apart")
+	checkNoSubtractingComparators(c, "C21.order", []string{ModulePath + "/" + pkgParser})
 	c.Rule("C21.ins", "parser.newInstruction: Bytes = bytes[:ins.ByteLen], Addr = addr, Type/Details copied, Effects = EffectsApply(ins.Effects, ConstFold) and nothing else; Len() is len(Bytes)")
 	c.Rule("C21.err", "decode and validation errors abort Parse (error propagation in package parser)")
 	n := checkErrflow(c, "C21.err", []string{pkgParser}, nil)
@@ -1270,4 +1272,52 @@ func isBlockListSplitter(f *ssa.Function) bool {
 	}
 	a, ok := f.Params[1].Type().(*types.Named)
 	return ok && a.Obj().Name() == "Addr"
+}
+
+// checkNoSubtractingComparators: see rule C21.order.
+func checkNoSubtractingComparators(c *Ctx, rule string, pkgs []string) {
+	nFn := 0
+	for _, fn := range c.Prog.Funcs() {
+		in := false
+		for _, p := range pkgs {
+			if PkgPathOf(fn) == p {
+				in = true
+			}
+		}
+		if !in || fn.Blocks == nil {
+			continue
+		}
+		nFn++
+		for _, cs := range Calls(fn) {
+			f := Callee(cs.Common())
+			if f == nil {
+				continue
+			}
+			name := Origin(f).String()
+			if !strings.HasSuffix(name, "slices.SortFunc") && !strings.HasSuffix(name, "slices.SortStableFunc") && !strings.HasSuffix(name, "slices.BinarySearchFunc") {
+				continue
+			}
+			cmp, _ := ResolveFunc(cs.Common().Args[len(cs.Common().Args)-1])
+			key := fmt.Sprintf("%s/%s", ShortName(fn), Origin(f).Name())
+			if cmp == nil || cmp.Blocks == nil {
+				c.Fail(rule, key, c.Prog.Pos(cs.Pos()), "the comparator cannot be resolved")
+				continue
+			}
+			bad := ""
+			for _, b := range cmp.Blocks {
+				ret, ok := b.Instrs[len(b.Instrs)-1].(*ssa.Return)
+				if !ok || len(ret.Results) != 1 {
+					continue
+				}
+				if DependsOn(ret.Results[0], func(v ssa.Value) bool {
+					bo, ok := v.(*ssa.BinOp)
+					return ok && bo.Op == token.SUB
+				}) {
+					bad = c.Prog.Pos(ret.Pos())
+				}
+			}
+			c.Oblige(rule, key, c.Prog.Pos(cs.Pos()), bad == "", "the comparator returns a difference (at "+bad+"): for operands far apart the sign is wrong and the list is put out of address order")
+		}
+	}
+	c.RequireCount(rule+" functions of package parser inspected", nFn, 3)
 }
